@@ -206,6 +206,65 @@ def render(src, rng, reindent=None, style="spaces", respace=0.0, shrink=False, e
         filler()
     return "\n".join(out) + "\n"
 
+# tags of infix operators (symbols `:=` .. `\\/`, and the alphabetic ones)
+INFIX_TAGS = set(range(77, 111)) | {12, 52, 54, 56, 48, 27, 17, 37, 18, 53}
+KW_OParen, KW_Assign = 115, 77
+PILE_KEYWORDS = {61, 24, 67, 11, 64, 16, 19, 29, 13}     # isPileRequired: then else with add try but catch finally always
+
+def render_escfill(src, rng, fill, k, contind, where, p=0.6):
+    """escaped line break + k filler lines + continuation line.
+    fill: 'empty' | 'ws' (blanks and tabs only) | 'comment' (comment-only lines);
+    contind: continuation indented 'deeper' (deeper than every line of the text) | 'equal' (as the
+    statement start) | 'shallower'; where: the token position of the break: before an 'infix'
+    operator, before a '(' ('paren'), after ':=' ('assign'), or 'any' gap between two tokens.
+    With 'empty'/'ws' the scanner skips everything up to the continuation, so no newline token
+    exists and the continuation's column cannot matter.  A comment ends the escape: its own line
+    end is a real one, so in a pile the continuation is a line of its own."""
+    maxind = max([i[0] for i in src.info] + [0])
+    out = []
+    nsplit = 0
+    for (ind, body, starts, tags) in src.info:
+        if starts is None or body == "" or not tags:
+            out.append(lead(ind, "spaces", rng) + body if starts is not None else body)
+            continue
+        nprot = max(protected(tags), 1)
+        cols = col_offsets(ind, body)
+        base = cols[starts[2]] if (nprot == 3 and len(starts) > 2) else ind
+        def ok(j, kind):
+            if j < nprot or tags[j] in (TK_Comment, TK_PreDoc, TK_PostDoc) or tags[j - 1] in (TK_Comment, TK_PreDoc, TK_PostDoc):
+                return False
+            if fill == "comment" and src.piled and tags[j - 1] in PILE_KEYWORDS:
+                return False      # a one-line pile would be formed after the keyword (different tokens, same tree)
+            if kind == "infix": return tags[j] in INFIX_TAGS
+            if kind == "paren": return tags[j] == KW_OParen
+            if kind == "assign": return tags[j - 1] == KW_Assign
+            return True
+        cand = [j for j in range(1, len(starts)) if ok(j, where)]
+        if not cand and rng.random() < 0.5:
+            cand = [j for j in range(1, len(starts)) if ok(j, "any")]
+        if not cand or rng.random() > p:
+            out.append(lead(ind, "spaces", rng) + body)
+            continue
+        j = rng.choice(cand)
+        nsplit += 1
+        first = body[:starts[j]].rstrip(" \t")
+        out.append(lead(ind, "spaces", rng) + first + " _" + rng.choice(["", " ", "\t", "  "]))
+        for _ in range(k):
+            if fill == "empty":
+                out.append("")
+            elif fill == "ws":
+                out.append(rng.choice([" ", "\t", "   ", " \t ", "        "]))
+            else:
+                out.append(lead(rng.randint(0, maxind + 6), rng.choice(["spaces", "tabs"]), rng) + "--" + rng.choice([" c", "", " x := 1", " _"]))
+        if contind == "deeper":
+            c = maxind + rng.randint(1, 4)
+        elif contind == "equal" or base == 0:
+            c = base
+        else:
+            c = rng.randint(0, base - 1)
+        out.append(lead(c, rng.choice(["spaces", "spaces", "tabs"]), rng) + body[starts[j]:])
+    return "\n".join(out) + "\n", nsplit
+
 def expanding_map(rng, maxw):
     """strictly increasing f with f(0)=0 and f(b)-f(a) >= b-a"""
     acc = [0]
@@ -242,6 +301,17 @@ def variants(src, rng, thorough):
     for i in range(6 if thorough else 3):
         vs.append(("combo%d" % i, render(src, rng, reindent=expanding_map(rng, 3), style=rng.choice(["spaces", "tabs", "mixed"]),
                                           respace=0.3, blank=0.2, comment=0.2, escape=0.05)))
+    # escaped line break, then k blank / white-space-only / comment-only lines, then the continuation
+    combos = [(f, c) for f in ("empty", "ws", "comment") for c in ("deeper", "equal", "shallower")]
+    wheres = ["infix", "paren", "assign", "any"]
+    off1, off2 = rng.randint(0, 2), rng.randint(0, 3)
+    for rep in range(2 if thorough else 1):
+        for i, (f, c) in enumerate(combos):
+            k = 1 + (i + off1 + rep) % 3
+            wh = wheres[(i + off2 + rep) % 4]
+            text, n = render_escfill(src, rng, f, k, c, wh)
+            if n:
+                vs.append(("escfill-%s%d-%s-%s%s" % (f, k, c, wh, "-b" if rep else ""), text))
     return vs
 
 # ------------------------------------------------------------------ dumps
@@ -487,7 +557,7 @@ def run_part(ctx, build):
             d = os.path.join(work, "v%d" % len(units)); os.makedirs(d)
             vp = os.path.join(d, "f.as")
             open(vp, "w").write(vtext)
-            units.append({"program": name, "rendering": rendering, "kind": kind, "text": vtext, "path": vp})
+            units.append({"program": name, "rendering": rendering, "kind": kind, "text": vtext, "path": vp, "piled": src.piled})
     stats["variants"] = len(units)
 
     # (b) the compiler on every variant
@@ -599,6 +669,19 @@ def run_part(ctx, build):
         for rendering, vs in byr.items():
             base = vs[0]
             for u in vs:
+                if (u["kind"].startswith("escfill-comment") and u["piled"] and "-deeper-" not in u["kind"]
+                        and (u["rc"] != 0 or u["ap"] is None or u["dump"] != base["dump"] or u["ap"] != base["ap"])):
+                    # a comment behind an escaped line break ends the escape: its line end is a real one
+                    stats["comment_after_escape"] = stats.get("comment_after_escape", 0) + 1
+                    ctx.finding("linear|scan-layout|comment-after-escaped-line-break",
+                                "in a pile, a comment-only line (or a trailing comment) behind an escaped line break ends the escape: the "
+                                "continuation line, when not indented deeper, becomes a statement of its own; variant `%s` of %s: %s"
+                                % (u["kind"], name, (u["dump"] or u["out"][-300:])[:300]),
+                                {"kind": "impl-violates-property", "base": base["text"], "variant": u["text"], "variant_kind": u["kind"],
+                                 "base_tokens": base["dump"], "variant_tokens": u["dump"], "base_ap": base["ap"], "variant_ap": u["ap"],
+                                 "minimal": ["#pile\nf(a: I, b: I): I ==\n    x := a _\n    - b\n    x\n",
+                                             "#pile\nf(a: I, b: I): I ==\n    x := a _\n  -- c\n    - b\n    x\n"]})
+                    continue
                 if u["rc"] != 0 or u["ap"] is None:
                     ok = False
                     ctx.finding("linear|variant-rejected|" + name,
